@@ -11,3 +11,14 @@ void fixture_blocks(const unsigned char *data, size_t len)
         data += 8;
     }
 }
+
+/* second control: an unguarded cast of the length before the loop bound */
+void fixture_blocks_cast(const unsigned char *data, size_t len)
+{
+    unsigned count = (unsigned)len / 8;
+    while (count > 0) {
+        fixture_consume(data);
+        data += 8;
+        --count;
+    }
+}
